@@ -8,6 +8,7 @@ CONSTANTS
   MaxQ = 2
   FIX_ERR = TRUE
   FIX_RACE = TRUE
+  FIX_RDCLOSED = TRUE
 VIEW View
 INVARIANTS NoWaitOnConsumer CloseProtocol ResultsOK ErrsGenuine Released LockSane
 CHECK_DEADLOCK FALSE
